@@ -5,6 +5,7 @@ import (
 	"os/exec"
 	"strings"
 	"sync/atomic"
+	"syscall"
 	"time"
 
 	"git.sr.ht/~rockorager/vaxis"
@@ -16,6 +17,12 @@ import (
 // StallD: a real child process on a real PTY raises N events of kind What
 // (bell, title, notify, apc, mixed) and then prints a marker; Consumer is how
 // the attached event handler behaves (count, slow, reenter).
+//
+// What = "query:<name>", Consumer = "noread": the child puts its terminal in
+// raw mode (as full-screen programs do), writes N requests for a report
+// (device attributes, status, cursor position, mode) without ever reading the
+// answers, prints the marker and stays alive. The bytes it writes are a legal,
+// finite stream: it is processed iff the marker reaches the screen.
 type StallD struct {
 	What     string
 	N        int
@@ -43,6 +50,26 @@ func stallScript(what string, n int) string {
 	return sb.String() + marker
 }
 
+// Queries are the requests the terminal answers by writing to its child.
+var Queries = map[string]string{
+	"da1":    `\033[c`,
+	"da2":    `\033[>c`,
+	"dsr":    `\033[5n`,
+	"cpr":    `\033[6n`,
+	"decrqm": `\033[?7$p`,
+}
+
+// stallCmd is the child of the scenario.
+func stallCmd(d *StallD) *exec.Cmd {
+	if q, ok := Queries[strings.TrimPrefix(d.What, "query:")]; ok && strings.HasPrefix(d.What, "query:") {
+		// yes | head | tr: the N copies come from processes that write and never read; the shell becomes
+		// the sleep, so that killing the child leaves nothing behind
+		script := fmt.Sprintf(`stty raw -echo; q=$(printf '%s'); yes "$q" | head -n %d | tr -d '\n'; printf %s; exec sleep 60`, q, d.N, marker)
+		return exec.Command("/bin/sh", "-c", script)
+	}
+	return exec.Command("/usr/bin/printf", stallScript(d.What, d.N))
+}
+
 // attempt runs the child once; done reports whether the marker reached the
 // emulator's screen within the bound, seen the number of events delivered.
 func stallAttempt(d *StallD, bound time.Duration) (done bool, seen int64) {
@@ -60,7 +87,7 @@ func stallAttempt(d *StallD, bound time.Duration) (done bool, seen int64) {
 			}
 		}
 	})
-	cmd := exec.Command("/usr/bin/printf", stallScript(d.What, d.N))
+	cmd := stallCmd(d)
 	if err := vt.StartWithSize(cmd, 20, 4); err != nil {
 		panic("pty start: " + err.Error())
 	}
@@ -79,6 +106,8 @@ func stallAttempt(d *StallD, bound time.Duration) (done bool, seen int64) {
 		time.Sleep(5 * time.Millisecond)
 	}
 	if cmd.Process != nil {
+		// the child leads its own session: kill its whole process group (a pipeline blocked on the terminal)
+		syscall.Kill(-cmd.Process.Pid, syscall.SIGKILL)
 		cmd.Process.Kill()
 	}
 	return false, atomic.LoadInt64(&n)
@@ -96,9 +125,15 @@ func RunStall(sc *Scn) (evs []trace.Ev, note string) {
 		tries++
 		done, seen = stallAttempt(d, 8*time.Second)
 	}
-	evs = append(evs, trace.Ev{"ev": "stall", "k": "stall:" + d.What, "what": d.What, "n": d.N, "consumer": d.Consumer,
+	k := "stall:" + d.What
+	if strings.HasPrefix(d.What, "query:") {
+		k = "unread:" + d.What[6:]
+	}
+	evs = append(evs, trace.Ev{"ev": "stall", "k": k, "what": d.What, "n": d.N, "consumer": d.Consumer,
 		"done": done, "seen": seen, "tries": tries})
-	if !done {
+	if !done && strings.HasPrefix(d.What, "query:") {
+		note = "child output after the unread replies not processed"
+	} else if !done {
 		note = fmt.Sprintf("stalled after %d events", seen)
 	}
 	return evs, note
@@ -120,6 +155,16 @@ func StallScenarios(thorough bool) []*Scn {
 				}
 				out = append(out, &Scn{Kind: "stall", Cols: 20, Rows: 4, Stall: &StallD{What: what, N: n, Consumer: c}})
 			}
+		}
+	}
+	// requests whose answers the child does not read: far more than the kernel holds for it (about 4 KB + 64 KB)
+	kinds, ns := []string{"da1", "cpr"}, []int{20000}
+	if thorough {
+		kinds, ns = []string{"da1", "da2", "dsr", "cpr", "decrqm"}, []int{100, 20000, 200000}
+	}
+	for _, q := range kinds {
+		for _, n := range ns {
+			out = append(out, &Scn{Kind: "unread", Cols: 20, Rows: 4, Stall: &StallD{What: "query:" + q, N: n, Consumer: "noread"}})
 		}
 	}
 	return out
